@@ -433,17 +433,29 @@ def check_limits(ctx, case):
 @st.composite
 def control_case(draw):
     n = draw(st.integers(1, 3))
+    nout = draw(st.sampled_from([1, 1, 2]))
+    # which output each controller drives (None: a controller with fixed control, no output module configured)
+    outs = [draw(st.sampled_from(list(range(nout)) * 3 + [None])) for _ in range(n)]
     ops = []
+    names = [f'out{k}' if k else 'out' for k in range(nout)]
     for _ in range(draw(st.integers(1, 25))):
-        who = draw(st.sampled_from(['out'] + [f'c{i}' for i in range(n)] * 2))
+        who = draw(st.sampled_from(names + [f'c{i}' for i in range(n)] * 2))
         ops.append({'who': who, 'how': draw(st.sampled_from(['client', 'client', 'driver'])), 'value': draw(st.sampled_from([0.0, 1.0, 2.5]))})
-    return {'kind': 'control', 'n': n, 'ops': ops, 'order': draw(st.sampled_from(['out-first', 'out-last']))}
+    return {'kind': 'control', 'n': n, 'nout': nout, 'outs': outs, 'ops': ops,
+            'order': draw(st.sampled_from(['out-first', 'out-last']))}
 
 
 def check_control(ctx, case):
     from frappy.core import Writable
     from frappy.mixins import HasControlledBy, HasOutputModule
     switched = []
+    n, nout = case['n'], case.get('nout', 1)
+    outs = list(case.get('outs') or [0] * n)
+    if len(outs) != n or any(o is not None and not (isinstance(o, int) and 0 <= o < nout) for o in outs) or n < 1:
+        return
+    outnames = [f'out{k}' if k else 'out' for k in range(nout)]
+    if any(op['who'] not in outnames + [f'c{i}' for i in range(n)] for op in case['ops']):
+        return
 
     class Out(HasControlledBy, Writable):
         def write_target(self, value):
@@ -453,7 +465,8 @@ def check_control(ctx, case):
     class Ctl(HasOutputModule, Writable):
         def write_target(self, value):
             self.activate_control()
-            self.output_module.update_target(self.name, value)
+            if self.output_module:
+                self.output_module.update_target(self.name, value)
             return value
 
         def set_control_active(self, active):
@@ -461,22 +474,29 @@ def check_control(ctx, case):
             super().set_control_active(active)
     cfg = {}
     if case['order'] == 'out-first':
-        cfg['out'] = {'cls': Out, 'description': 'output'}
-    for i in range(case['n']):
-        cfg[f'c{i}'] = {'cls': Ctl, 'description': f'controller {i}', 'output_module': 'out'}
-    cfg.setdefault('out', {'cls': Out, 'description': 'output'})
+        for name in outnames:
+            cfg[name] = {'cls': Out, 'description': 'output'}
+    for i in range(n):
+        cfg[f'c{i}'] = {'cls': Ctl, 'description': f'controller {i}'}
+        if outs[i] is not None:
+            cfg[f'c{i}']['output_module'] = outnames[outs[i]]
+    for name in outnames:
+        cfg.setdefault(name, {'cls': Out, 'description': 'output'})
     kit = Kit(cfg)
     if kit.errors:
         ctx.finding('control:node-refused', case, repr(kit.errors)[:300])
         return
     conn = FakeConn('c')
-    out = kit.modules['out']
-    ctls = [kit.modules[f'c{i}'] for i in range(case['n'])]
+    ctls = {f'c{i}': kit.modules[f'c{i}'] for i in range(n)}
+    group = {name: [f'c{i}' for i in range(n) if outs[i] == k] for k, name in enumerate(outnames)}
+    owner = {name: 'self' for name in outnames}     # model: who controls each output
+    fixed_active = set()                            # controllers without output: active from their first write on
     handovers = 0
-    for n, op in enumerate(case['ops']):
+    ctx.label(f'control:outputs:{nout}', f'control:fixed:{sum(o is None for o in outs)}')
+    for num, op in enumerate(case['ops']):
         ctx.ev()
-        sub = dict(case, ops=case['ops'][:n + 1])
-        active_before = [c.name for c in ctls if c.control_active]
+        sub = dict(case, ops=case['ops'][:num + 1])
+        active_before = {c for c, m in ctls.items() if m.control_active}
         mark = len(switched)
         try:
             if op['how'] == 'client':
@@ -489,32 +509,49 @@ def check_control(ctx, case):
         except Exception as e:   # noqa
             ctx.finding(f'control:op-raises:{type(e).__name__}', sub, repr(e)[:200])
             return
-        active = [c.name for c in ctls if c.control_active]
-        cb = out.controlled_by
-        cbname = getattr(cb, 'name', str(cb))
-        if len(active) > 1:
-            ctx.finding('control:two-controllers-active', sub, repr(active))
-            return
-        want = 'self' if op['who'] == 'out' else op['who']
-        if (active or ['self'])[0] != want:
-            ctx.finding('control:wrong-controller-active', sub, f'after {op["who"]} wrote its target: active {active!r}')
-            return
-        if cbname != want:
-            ctx.finding('control:output-names-wrong-controller', sub, f'controlled_by = {cbname!r}, active {active!r}, expected {want!r}')
-            return
+        who = op['who']
+        if who in owner:
+            owner[who] = 'self'
+        elif outs[int(who[1:])] is None:
+            fixed_active.add(who)
+        else:
+            owner[outnames[outs[int(who[1:])]]] = who
+        for oname in outnames:
+            out = kit.modules[oname]
+            active = [c for c in group[oname] if ctls[c].control_active]
+            cb = out.controlled_by
+            cbname = getattr(cb, 'name', str(cb))
+            want = owner[oname]
+            other = '' if oname == (who if who in owner else outnames[outs[int(who[1:])]] if outs[int(who[1:])] is not None else None) \
+                else ':other-output'
+            if len(active) > 1:
+                ctx.finding('control:two-controllers-active' + other, sub, f'{oname}: {active!r}')
+                return
+            if (active or ['self'])[0] != want:
+                ctx.finding('control:wrong-controller-active' + other, sub,
+                            f'after {who} wrote its target: {oname} has active {active!r}, expected {want!r}')
+                return
+            if cbname != want:
+                ctx.finding('control:output-names-wrong-controller' + other, sub,
+                            f'{oname}.controlled_by = {cbname!r}, active {active!r}, expected {want!r}')
+                return
+            # the description of the output lists exactly its own controllers in the enum of controlled_by
+            members = out.parameters['controlled_by'].datatype.export_datatype()['members']
+            if set(members) != {'self'} | set(group[oname]):
+                ctx.finding('control:enum-members', sub, f'{oname}: {members!r}')
+                return
+        for c in fixed_active:
+            if not ctls[c].control_active:
+                ctx.finding('control:fixed-controller-switched-off', sub, f'{c} has no output module, but lost control after {who} wrote')
+                return
         # taking over control switches the previous controller off through set_control_active(False)
-        for prev in active_before:
-            if prev != want:
-                handovers += 1
-                if (prev, False) not in switched[mark:]:
-                    ctx.finding('control:previous-controller-not-switched-off', sub, f'{prev} lost control without set_control_active(False): {switched[mark:]!r}')
-                    return
+        now = {c for c, m in ctls.items() if m.control_active}
+        for prev in active_before - now:
+            handovers += 1
+            if (prev, False) not in switched[mark:]:
+                ctx.finding('control:previous-controller-not-switched-off', sub, f'{prev} lost control without set_control_active(False): {switched[mark:]!r}')
+                return
         ctx.ok('single-controller')
-        # the description of the output lists every controller in the enum of controlled_by
-        members = out.parameters['controlled_by'].datatype.export_datatype()['members']
-        if set(members) != {'self'} | {c.name for c in ctls}:
-            ctx.finding('control:enum-members', sub, repr(members))
-            return
     if handovers:
         ctx.nt(('control', repr(case)))
     ctx.sample(case, every=97)
